@@ -1,6 +1,9 @@
 package harness
 
-import "fmt"
+import (
+	"fmt"
+	"strings"
+)
 
 // Scale jobs. A depth-bounded search from the empty cache never leaves the small-state corner: a table that has
 // grown more than once, a frequency sketch that has aged, a hill climber that has adapted the window, timers in the
@@ -71,11 +74,19 @@ func hotCold(lo, hot, rounds int, fresh *int, inserts int) []string {
 func scaleWorkloads(thorough bool) []workload {
 	var ws []workload
 	// --- table growth and shrinking (several doublings) ---
-	tabAlpha := []string{"set 30", "get 30", "inv 30", "set 10", "get 10", "inv 10", "cw 31", "cia 500", "all", "keys", "invall", "cleanup"}
-	ws = append(ws, workload{name: "table-grow-shrink/small", cfg: CacheCfg{InitCap: 1}, variant: "small", every: 8, alpha: tabAlpha, need: []string{"table-grew-twice", "table-shrank-after-growth"},
-		ops: cat(keyOps("set %d", 10, 33), keyOps("get %d", 10, 15), keyOps("inv %d", 10, 29), keyOps("set %d", 40, 43), []string{"all"})})
-	ws = append(ws, workload{name: "table-grow-shrink/native", cfg: CacheCfg{}, every: 160, alpha: tabAlpha, need: []string{"table-grew-twice", "table-shrank-after-growth"},
-		ops: cat(keyOps("set %d", 10, 409), []string{"all"}, keyOps("inv %d", 10, 406), []string{"all"}, keyOps("set %d", 500, 520))})
+	tabAlpha := []string{"load 600 val", "bulk 601,602,30 full", "set 30", "get 30", "inv 30", "set 10", "get 10", "inv 10", "cw 31", "cia 500", "all", "keys", "invall", "cleanup"}
+	for _, ins := range []string{"set %d", "load %d val", "cia %d"} {
+		tag := strings.Fields(ins)[0]
+		if !thorough && tag == "cia" {
+			continue
+		}
+		for _, procs := range []int{1, 3} { // 3: the parallel table copy with an uneven fan-out (small-scope: one bucket per goroutine)
+			ws = append(ws, workload{name: fmt.Sprintf("table-grow-shrink/small/%s/procs%d", tag, procs), cfg: CacheCfg{InitCap: 1, Procs: procs}, variant: "small", every: 8, alpha: tabAlpha, need: []string{"table-grew-twice", "table-shrank-after-growth"},
+				ops: cat(keyOps(ins, 10, 33), keyOps("get %d", 10, 15), keyOps("inv %d", 10, 29), keyOps(ins, 40, 43), []string{"all"})})
+		}
+		ws = append(ws, workload{name: "table-grow-shrink/native/" + tag, cfg: CacheCfg{}, every: 160, alpha: tabAlpha, need: []string{"table-grew-twice", "table-shrank-after-growth"},
+			ops: cat(keyOps(ins, 10, 409), []string{"all"}, keyOps("inv %d", 10, 406), []string{"all"}, keyOps(ins, 500, 520))})
+	}
 	// --- bounded by size: sketch aging, climber adaptation, admission between warm entries ---
 	polAlpha := []string{"set 900", "set 10", "get 10", "get 17", "inv 10", "inv 12", "setmax 4", "setmax 16", "cleanup", "coldest", "hottest", "all"}
 	for _, max := range []int{8, 16} {
@@ -123,6 +134,9 @@ func scaleWorkloads(thorough bool) []workload {
 		ws = append(ws, workload{name: "weights/2^36", cfg: CacheCfg{MaxWeight: 1 << 36, WeightShift: 28}, every: 12, alpha: wa, ops: ops, need: []string{"overflow-evictions"}})
 		ws = append(ws, workload{name: "weights/101", cfg: CacheCfg{MaxWeight: 101}, every: 12, alpha: []string{"set 900 15", "set 900 1", "set 10 0", "set 20 15", "get 20", "inv 21", "setmax 50", "cleanup", "coldest", "all"}, ops: ops, need: []string{"overflow-evictions"}})
 	}
+	// --- a thousand pinned (zero-weight) entries in front of the eviction cursor ---
+	ws = append(ws, workload{name: "pinned-1000", cfg: CacheCfg{MaxWeight: 2}, alpha: []string{"setmax 1", "set 1 3", "set 3 1", "set 3 2", "get 1", "cleanup"},
+		ops: cat(keyOps("set %d 0", 1000, 2000), []string{"set 1 1", "set 2 1"})})
 	// --- timer wheel: every level, full turns, cascades ---
 	for _, kind := range []string{"custom", "accessing"} {
 		spans := []int64{tickNs, 64 * tickNs, 64 * 64 * tickNs, 64 * 64 * 32 * tickNs, 64 * 64 * 32 * 4 * tickNs}
@@ -133,6 +147,11 @@ func scaleWorkloads(thorough bool) []workload {
 				for _, m := range []int64{1, 3} {
 					ops = append(ops, fmt.Sprintf("set %d 1 ttl=%d", next, m*sp+int64(l)+5))
 					next++
+				}
+				if l+1 < len(spans) {
+					// almost a full turn of this level ahead: shares a bucket with the level's current tick
+					ops = append(ops, fmt.Sprintf("set %d 1 ttl=%d", next, spans[l+1]-2), fmt.Sprintf("set %d 1 ttl=%d", next+1, spans[l+1]-sp/2))
+					next += 2
 				}
 			}
 		}
@@ -208,6 +227,28 @@ func scaleWorkloads(thorough bool) []workload {
 		wa := []string{"load 10 val", "load 11 err", "get 12", "set 13", "inv 14", "adv 41", "adv 100", "cleanup", "bulk 10,15,21 full", "refresh 10 val", "all"}
 		ws = append(ws, workload{name: "loading-periods", cfg: CacheCfg{MaxSize: 8, Expiry: "writing", TTL: 100, Refresh: "writing", RefreshTTL: 40, ClockStart: 1 << 40}, every: 9, alpha: wa, ops: ops})
 	}
+	// --- one bulk call over many keys (more than any internal batch size): stale, missing and fresh keys mixed ---
+	for _, ex := range []string{"deferred", ""} {
+		var ks []string
+		for k := 10; k < 80; k++ {
+			ks = append(ks, fmt.Sprint(k))
+		}
+		all := strings.Join(ks, ",")
+		ops := cat(keyOps("set %d", 10, 59), []string{"adv 50"}, keyOps("set %d", 60, 69), []string{"bulk " + all + " full"})
+		if ex != "" {
+			ops = append(ops, "runexec")
+		}
+		ops = append(ops, "adv 50", "bulkrefresh "+all+" full")
+		if ex != "" {
+			ops = append(ops, "runexec")
+		}
+		ops = append(ops, "adv 50", "bulk "+all+" partial")
+		wa := []string{"bulk " + all + " full", "bulkrefresh " + all + " full", "get 10", "load 11 val", "set 12", "inv 13", "adv 50", "all"}
+		if ex != "" {
+			wa = append(wa, "runexec")
+		}
+		ws = append(ws, workload{name: "bulk-70-keys/" + ex, cfg: CacheCfg{Refresh: "writing", RefreshTTL: 40, Executor: ex, ClockStart: 1 << 40}, every: 62, alpha: wa, ops: ops})
+	}
 	return ws
 }
 
@@ -233,11 +274,19 @@ func scaleJobs(property string, thorough bool) []*Job {
 			p.Kinds = []string{"unjustified-overflow", "untruthful-expiration", "overflow-without-bound", "zero-weight-evicted", "unexpected-removal", "missing-entry"}
 			use = w.cfg.Executor == ""
 		case "C12":
-			p.Kinds = []string{"deadline-mismatch", "deadline-wrapped", "refresh-deadline-mismatch", "invisible-before-deadline", "visible-at-deadline", "missing-entry", "hook-mismatch"}
+			p.Kinds = []string{"deadline-mismatch", "deadline-wrapped", "refresh-deadline-mismatch", "invisible-before-deadline", "visible-at-deadline", "missing-entry", "hook-mismatch", "untruthful-expiration"}
 			use = w.cfg.Expiry != ""
 		case "C13":
 			p.Kinds = []string{"timer-not-swept", "untruthful-expiration", "missing-entry", "expiration-misreported"}
 			use = w.cfg.Expiry != ""
+		case "C08":
+			p.Kinds = []string{"inflight-left", "loader-calls", "refresh-channel", "result-mismatch", "refresh-result-wrong"}
+			use = w.name == "loading-periods" || strings.HasPrefix(w.name, "bulk-")
+		case "C09":
+			p.Kinds = []string{"phantom-value", "missing-entry", "result-mismatch", "unexpected-removal", "event-missing", "loader-calls"}
+			use = w.name == "loading-periods"
+		case "C10", "C11":
+			use = w.name == "loading-periods" || strings.HasPrefix(w.name, "table-grow") || strings.HasPrefix(w.name, "bulk-")
 		case "C19":
 			p.Kinds = []string{"no-seq-kinds"}
 			p.Persist = &persistParams{TargetMax: []int64{-1, 3, 50}}
@@ -261,7 +310,7 @@ func scaleJobs(property string, thorough bool) []*Job {
 }
 
 func init() {
-	for _, prop := range []string{"C01", "C04", "C05", "C06", "C07", "C12", "C13", "C19", "C20"} {
+	for _, prop := range []string{"C01", "C04", "C05", "C06", "C07", "C08", "C09", "C10", "C11", "C12", "C13", "C19", "C20"} {
 		base, prop := plans[prop], prop
 		plans[prop] = func(thorough bool) []*Job { return append(base(thorough), scaleJobs(prop, thorough)...) }
 	}
